@@ -365,6 +365,24 @@ fn rule_cases() -> Vec<Case> {
     add("unknown directive applications", "scalar S @nope", false);
     add("unknown directive applications", "union U @nope = Query", false);
     add("unknown directive applications", "schema @nope { query: Query }", false);
+    // the same faults on extensions, incl. extensions that carry nothing but directives
+    for (kind, def, ext) in [
+        ("type", "type X { a: Int }", "extend type X"),
+        ("interface", "interface X { a: Int }", "extend interface X"),
+        ("union", "union X = Query", "extend union X"),
+        ("enum", "enum X { A }", "extend enum X"),
+        ("input", "input X { a: Int }", "extend input X"),
+        ("scalar", "scalar X", "extend scalar X"),
+        ("schema", "schema { query: Query }", "extend schema"),
+    ] {
+        let loc = match kind { "type" => "OBJECT", "interface" => "INTERFACE", "union" => "UNION", "enum" => "ENUM", "input" => "INPUT_OBJECT", "scalar" => "SCALAR", _ => "SCHEMA" };
+        add("unknown directive applications", &format!("{def}\n{ext} @nope"), false);
+        add("misplaced directive applications", &format!("directive @d on FIELD\n{def}\n{ext} @d"), false);
+        add("repeated directive applications", &format!("directive @d on {loc}\n{def}\n{ext} @d @d"), false);
+        add("repeated directive applications", &format!("directive @d on {loc}\n{}\n{ext} @d", def.replacen(if kind == "schema" { "schema" } else { "X" }, if kind == "schema" { "schema @d" } else { "X @d" }, 1)), false);
+        add("ill-typed directive applications", &format!("directive @d(x: Int!) on {loc}\n{def}\n{ext} @d(x: \"s\")"), false);
+        add("misplaced directive applications", &format!("directive @d(x: Int) repeatable on {loc}\n{def}\n{ext} @d\n{ext} @d(x: 1)"), true);
+    }
     add("misplaced directive applications", "directive @d on FIELD\ntype T @d { a: Int }", false);
     add("misplaced directive applications", "directive @d on OBJECT\ntype T { a: Int @d }", false);
     add("misplaced directive applications", "directive @d on OBJECT\ninterface I @d { a: Int }", false);
